@@ -18,10 +18,13 @@ pub struct Loc {
     pub end: usize,
 }
 
-/// strip « » markers; return (text, locations of the marked tokens in order)
-pub fn unmark(tpl: &str) -> (String, Vec<Loc>) {
+/// strip « » and ‹ › markers; return (text, locations of the « » tokens in order, locations of
+/// the ‹ › tokens in order: the references a SubwordSpaces diagnostic says it came through)
+pub fn unmark(tpl: &str) -> (String, Vec<Loc>, Vec<Loc>) {
     let mut out = String::new();
     let mut locs = vec![];
+    let mut trace = vec![];
+    let mut topen: Option<(usize, usize)> = None;
     let mut line = 1;
     let mut col = 1; // 1-based byte column
     let mut open: Option<(usize, usize)> = None;
@@ -32,6 +35,11 @@ pub fn unmark(tpl: &str) -> (String, Vec<Loc>) {
                 let (l, s) = open.take().unwrap();
                 // a token that spans lines ends, for the purpose of the span, on its first line
                 locs.push(Loc { line: l, col: s, end: if l == line { col } else { 0 } });
+            }
+            '‹' => topen = Some((line, col)),
+            '›' => {
+                let (l, s) = topen.take().unwrap();
+                trace.push(Loc { line: l, col: s, end: if l == line { col } else { 0 } });
             }
             '\n' => {
                 out.push(c);
@@ -44,7 +52,7 @@ pub fn unmark(tpl: &str) -> (String, Vec<Loc>) {
             }
         }
     }
-    (out, locs)
+    (out, locs, trace)
 }
 
 const PREFIXES: [(&str, &str); 5] = [
@@ -75,11 +83,15 @@ fn templates() -> Vec<(&'static str, &'static str)> {
         ("VaryingCommandNames", "«cmd» a;\n«other» b;\n"),
         ("VaryingCommandNames", "«cmd» a;\ncmd c;\n  «other»\n b;\n«third» d;\n"),
         ("InvalidCommandName", "«a/cmd» x;\n"),
-        ("SubwordSpaces", "cmd --x=<A>;\n<A> ::= «aa» «bb»;\n"),
-        ("SubwordSpaces", "cmd --x=<A>;\n<A> ::= <B>;\n<B> ::= q\n  | «aa»\n    «bb»;\n"),
+        ("SubwordSpaces", "cmd --x=‹<A>›;\n<A> ::= «aa» «bb»;\n"),
+        ("SubwordSpaces", "cmd --x=‹<A>›;\n<A> ::= ‹<B>›;\n<B> ::= q\n  | «aa»\n    «bb»;\n"),
+        // references that are not on the way to the offending definition (undefined names,
+        // definitions without the mistake) are not part of the trace
+        ("SubwordSpaces", "cmd rename <NAME> <FILE>;\ncmd set <OK>\n    --level=‹<LEVEL>›;\n<OK> ::= fine;\n<LEVEL> ::= «very» «high» | low;\n"),
+        ("SubwordSpaces", "cmd --a=<U> --b=<OK>,‹<L>›;\n<OK> ::= x | y;\n<L> ::= <V>‹<M>›;\n<M> ::= «p» «q»;\n"),
         // the offending literal receives a distributed description (and is re-created by that pass)
         ("SubwordSpaces", "cmd (--quiet\n     | <L>(«debug» «info»)) \"verbosity\";\n"),
-        ("SubwordSpaces", "cmd [x] (p<A>) \"dd\";\n<A> ::= (q | «r1»\n «r2») \"inner\";\n"),
+        ("SubwordSpaces", "cmd [x] (p‹<A>›) \"dd\";\n<A> ::= (q | «r1»\n «r2») \"inner\";\n"),
         ("UnboundedMatchable", "cmd (y\n | «<U>»«s») \"dd\";\n"),
         ("UnboundedMatchable", "cmd «<U>»«suffix»;\n"),
         ("UnboundedMatchable", "cmd x\n  --o=«<U>»«,»<V>;\n"),
@@ -98,6 +110,8 @@ struct Case {
     prefix: &'static str,
     text: String,
     locs: Vec<Loc>,
+    /// SubwordSpaces: the references the diagnostic came through, outermost first
+    trace: Vec<Loc>,
     shell: &'static str,
 }
 
@@ -111,12 +125,12 @@ fn cases() -> Vec<Case> {
             }
             for sh in shells() {
                 let t = tpl.replace("SHELL", sh);
-                let (text, mut locs) = unmark(&format!("{p}{t}"));
+                let (text, mut locs, trace) = unmark(&format!("{p}{t}"));
                 if class == "ParseError" {
                     // a syntax error is located at a point (one column wide), not at a token
                     locs.iter_mut().for_each(|l| l.end = 0);
                 }
-                out.push(Case { class, prefix: pname, text, locs, shell: sh });
+                out.push(Case { class, prefix: pname, text, locs, trace, shell: sh });
             }
         }
     }
@@ -125,6 +139,21 @@ fn cases() -> Vec<Case> {
 
 fn loc_of(sp: &HumanSpan) -> Loc {
     Loc { line: sp.line, col: sp.column_start, end: sp.column_end }
+}
+
+/// every element of `got` matches an element of `chain`, in order
+fn is_subsequence(got: &[Loc], chain: &[Loc]) -> bool {
+    let mut k = 0;
+    for g in got {
+        while k < chain.len() && !same(g, &chain[k]) {
+            k += 1;
+        }
+        if k == chain.len() {
+            return false;
+        }
+        k += 1;
+    }
+    true
 }
 
 fn same(a: &Loc, exp: &Loc) -> bool {
@@ -143,7 +172,7 @@ fn library_spans(text: &str, shell: &str) -> Result<(String, Vec<Loc>), String> 
             Error::ParseError(s) | Error::InvalidCommandName(s) | Error::UnknownShell(s) | Error::NonCommandSpecialization(s) => vec![loc_of(s)],
             Error::VaryingCommandNames(ss) | Error::NonterminalDefinitionsCycle(ss) => ss.iter().map(loc_of).collect(),
             Error::DuplicateNonterminalDefinition(a, b) | Error::UnboundedMatchable(a, b) => vec![loc_of(a), loc_of(b)],
-            Error::SubwordSpaces(a, b, _) => vec![loc_of(a), loc_of(b)],
+            Error::SubwordSpaces(a, b, tr) => [loc_of(a), loc_of(b)].into_iter().chain(tr.iter().map(loc_of)).collect(),
             _ => vec![],
         };
         (class, v)
@@ -207,15 +236,22 @@ fn check_library(c: &Case, out: &mut Vec<Violation>) {
         return;
     }
     let ordered = matches!(c.class, "DuplicateNonterminalDefinition" | "SubwordSpaces" | "UnboundedMatchable");
-    let ok = if ordered {
-        got.1.len() == c.locs.len() && got.1.iter().zip(c.locs.iter()).all(|(a, e)| same(a, e))
+    // SubwordSpaces carries, after the two literals, references it came through: each of them
+    // must be one of the references on the way to the offending definition (‹ ›), in order
+    // (definitions are expanded before the check, so inner references may be absent)
+    let want: Vec<Loc> = c.locs.iter().chain(c.trace.iter()).cloned().collect();
+    let ok = if c.class == "SubwordSpaces" {
+        got.1.len() >= c.locs.len() && got.1.iter().zip(c.locs.iter()).all(|(a, e)| same(a, e)) && is_subsequence(&got.1[c.locs.len()..], &c.trace)
+    } else if ordered {
+        got.1.len() == want.len() && got.1.iter().zip(want.iter()).all(|(a, e)| same(a, e))
     } else {
-        got.1.len() == c.locs.len() && c.locs.iter().all(|e| got.1.iter().any(|a| same(a, e)))
+        got.1.len() == want.len() && want.iter().all(|e| got.1.iter().any(|a| same(a, e)))
     };
     if !ok {
         let after_escape = c.prefix.contains("escaped") || c.text.contains('\\');
         let show = |v: &Vec<Loc>| v.iter().map(|l| format!("{}:{}-{}", l.line, l.col, l.end)).collect::<Vec<_>>().join(", ");
-        out.push(viol("C13.library.span", format!("{} behind prefix `{}`: reported at [{}], the construct is at [{}]", c.class, c.prefix, show(&got.1), show(&c.locs)), c, if after_escape { "wrong-after-backslash-escape" } else if ordered && got.1.len() == c.locs.len() { "wrong-or-swapped" } else { "wrong-location" }, "c13_locations"));
+        let trace_only = ordered && got.1.len() >= c.locs.len() && got.1.iter().zip(c.locs.iter()).all(|(a, e)| same(a, e));
+        out.push(viol("C13.library.span", format!("{} behind prefix `{}`: reported at [{}], the construct is at [{}]", c.class, c.prefix, show(&got.1), show(&want)), c, if after_escape { "wrong-after-backslash-escape" } else if trace_only { "wrong-reference-trace" } else if ordered && got.1.len() == want.len() { "wrong-or-swapped" } else { "wrong-location" }, "c13_locations"));
     }
 }
 
@@ -294,8 +330,8 @@ fn check_cli(c: &Case, bin: &str, out: &mut Vec<Violation>) {
     }
     let want_kind = if is_warn { "warning" } else { "error" };
     let got: Vec<Loc> = hs.iter().filter(|h| h.2 == want_kind).map(|h| Loc { line: h.0, col: h.1, end: 0 }).collect();
-    // trace lines ("Referenced in a subword context at") add headers: expected locations must all be present, in order for ordered kinds
-    let mut want: Vec<Loc> = c.locs.iter().map(|l| Loc { line: l.line, col: l.col, end: 0 }).collect();
+    // expected locations must all be present, in order for ordered kinds; the SubwordSpaces trace ("Referenced in a subword context at") is part of them
+    let mut want: Vec<Loc> = c.locs.iter().chain(c.trace.iter()).map(|l| Loc { line: l.line, col: l.col, end: 0 }).collect();
     if c.class == "DuplicateNonterminalDefinition" {
         want.reverse(); // the duplicate is printed first, then "Previous definition"
     }
@@ -307,6 +343,18 @@ fn check_cli(c: &Case, bin: &str, out: &mut Vec<Violation>) {
     }
     let all_present = want.iter().all(|w| got.iter().any(|g| g.line == w.line && g.col == w.col));
     let ordered = matches!(c.class, "DuplicateNonterminalDefinition" | "SubwordSpaces" | "UnboundedMatchable");
+    // a SubwordSpaces diagnostic prints its two literals and then references on the way to the
+    // offending definition, nothing else
+    if c.class == "SubwordSpaces" {
+        let n = c.locs.len();
+        let head_ok = got.len() >= n && got.iter().zip(want.iter()).take(n).all(|(g, w)| g.line == w.line && g.col == w.col);
+        let chain: Vec<Loc> = c.trace.iter().map(|l| Loc { line: l.line, col: l.col, end: 0 }).collect();
+        if !head_ok || !is_subsequence(&got[n.min(got.len())..], &chain) {
+            let show = |v: &Vec<Loc>| v.iter().map(|l| format!("{}:{}", l.line, l.col)).collect::<Vec<_>>().join(", ");
+            out.push(viol("C13.cli.header", format!("SubwordSpaces behind prefix `{}`: error headers at [{}], expected the two literals then references among [{}]", c.prefix, show(&got), show(&want)), c, if head_ok { "wrong-reference-trace" } else { "wrong-location-or-order" }, "c13_cli"));
+        }
+        return;
+    }
     if !all_present || (ordered && k != want.len()) || (is_warn && got.len() != want.len()) {
         let show = |v: &Vec<Loc>| v.iter().map(|l| format!("{}:{}", l.line, l.col)).collect::<Vec<_>>().join(", ");
         let after_escape = c.prefix.contains("escaped") || c.text.contains('\\');
@@ -354,6 +402,7 @@ pub fn replay(check: &str, args: &[String]) -> i32 {
         shell: Box::leak(args[2].clone().into_boxed_str()),
         text: args[3].clone(),
         locs: cases().into_iter().find(|x| x.text == args[3] && x.shell == args[2]).map(|x| x.locs).unwrap_or_default(),
+        trace: cases().into_iter().find(|x| x.text == args[3] && x.shell == args[2]).map(|x| x.trace).unwrap_or_default(),
     };
     println!("grammar:\n{}expected locations: {:?}", c.text, c.locs);
     let mut v = vec![];
